@@ -490,7 +490,7 @@ func cmdRaceArm(a []string) int {
 		go func(w int) {
 			defer wg.Done()
 			cmd := exec.Command(exe, "racearm-worker", strconv.FormatUint(seed, 10), strconv.Itoa(w), strconv.Itoa(nw), strconv.Itoa(n))
-			cmd.Env = append(os.Environ(), "GORACE=halt_on_error=1 exitcode=66", "GOMAXPROCS=4")
+			cmd.Env = append(os.Environ(), "GORACE=halt_on_error=1 exitcode=66", "GOMAXPROCS="+[]string{"1", "4", "16"}[w%3])
 			b, err := cmd.CombinedOutput()
 			code := 0
 			if ee, ok := err.(*exec.ExitError); ok {
@@ -546,7 +546,7 @@ func cmdRaceArm(a []string) int {
 		var ev map[string]interface{}
 		if json.Unmarshal(b, &ev) == nil {
 			if cov, ok := ev["coverage"].(map[string]interface{}); ok {
-				cov["auxiliary_race_arm"] = map[string]interface{}{"what": "NOT simulation: the same task scripts on real goroutines in a -race binary; only race-detector reports or concurrent-map fatals count", "scenarios": n, "repeats_per_scenario": 3, "worker_processes": nw, "gomaxprocs": 4, "race_reports": viol, "wall_s": time.Since(start).Seconds()}
+				cov["auxiliary_race_arm"] = map[string]interface{}{"what": "NOT simulation: the same task scripts on real goroutines in a -race binary; only race-detector reports or concurrent-map fatals count", "scenarios": n, "repeats_per_scenario": 3, "worker_processes": nw, "gomaxprocs": "1, 4 and 16 (by worker)", "race_reports": viol, "wall_s": time.Since(start).Seconds()}
 				if viol > 0 {
 					if v, ok := ev["violations"].(float64); ok {
 						ev["violations"] = int(v) + viol
